@@ -241,7 +241,7 @@ def gen_elem(rng, vars_, types=True, allow_var=True):
 
 def gen_int(rng, ivars, kind):
     r = rng.random()
-    if ivars and r < .4:
+    if ivars and r < .6:
         return ["ivar", rng.choice(ivars)]
     if r < .6:
         return ["ieq", rng.choice([0, 1] if kind == "opt" else [0, 1, 2, 2, 3])]
@@ -252,6 +252,8 @@ def gen_int(rng, ivars, kind):
 
 def gen_range(rng, vars_, rvars, ivars, kind, plain=.6):
     r = rng.random()
+    if rvars or ivars:
+        plain -= .15
     if r < plain:
         return ["rangeof", gen_elem(rng, vars_)]
     if rvars and r < plain + .18:
@@ -276,8 +278,8 @@ def gen_mode(rng, kinds):
 
 def gen_spec(rng, idx):
     vars_ = [f"T{i}" for i in range(rng.choice([0, 1, 1, 2]))]
-    rvars = [f"R{i}" for i in range(rng.choice([0, 0, 1]))]
-    ivars = [f"N{i}" for i in range(rng.choice([0, 0, 1]))]
+    rvars = [f"R{i}" for i in range(rng.choice([0, 1, 1]))]
+    ivars = [f"N{i}" for i in range(rng.choice([0, 1, 1]))]
     spec = {"name": f"c10.op{idx}", "vars": {}, "rvars": {}}
     for v in vars_:
         spec["vars"][v] = gen_elem(rng, [], allow_var=False) if rng.random() < .6 else ["any"]
